@@ -156,9 +156,11 @@ GapText(FF, g) ==
     [] g = "crlf"  -> B(<<13, 10>>)
     [] g = "com"   -> ComLine(FF, CHOOSE c \in ComChars(FF) : \A d \in ComChars(FF) : c <= d)
     [] g = "spcom" -> Cat(B(<<10, 32, 9>>), ComLine(FF, CHOOSE c \in ComChars(FF) : \A d \in ComChars(FF) : c >= d))
+(* "com" = a comment glued to the token (no blank) where the grammar lets a comment start there  *)
+(* (behind an enclosed-style section name); nothing at the other blank positions               *)
 BlankText(b) ==
   CASE b = "none" -> <<>> [] b = "sp" -> B(<<32>>) [] b = "tab" -> B(<<9>>)
-    [] b = "sp2" -> B(<<32, 32>>) [] b = "mix" -> B(<<32, 9>>)
+    [] b = "sp2" -> B(<<32, 32>>) [] b = "mix" -> B(<<32, 9>>) [] b = "com" -> <<>>
 
 ---------------------------------------------------------------------------
 (* the forest; k = "s" section / "o" option is not visible in the node tree (an empty     *)
@@ -223,7 +225,7 @@ AddOption(name, v, q, g, b1, b2, b3, term) ==
          st2 == AddLeaf(stack, name, v)
      IN /\ F.oe # 0 => term = "end"
         /\ F.oe = 0 => term \in {"nl", "com", "eof"}
-        /\ term = "com" => ComChars(F) # {} /\ b3 # "none"
+        /\ term = "com" => ComChars(F) # {} /\ BlankText(b3) # <<>>
         /\ term = "eof" => Closers(stack) = <<>>
         /\ text' = CatAll(<<text, body, ending>>)
         /\ stack' = st2 /\ nn' = nn + 1
@@ -251,8 +253,11 @@ OpenSection(name, g, b1, b2, g2) ==
         /\ Depth(stack) < (IF F.ss = F.se THEN 2 ELSE MaxDepth + 1)
         /\ LET st1 == IF F.ss = F.se /\ Depth(stack) = 1 THEN Pop(stack) ELSE stack
                st2 == Push(st1, name)
-               post == IF b2 = "none" THEN C1(10) ELSE BlankText(b2) IN
+               post == IF b2 = "none" THEN C1(10)
+                       ELSE IF b2 = "com" THEN ComLine(F, CHOOSE c \in ComChars(F) : \A d \in ComChars(F) : c <= d)
+                       ELSE BlankText(b2) IN
            /\ Depth(st1) < MaxDepth
+           /\ b2 = "com" => ComChars(F) # {}
            /\ text' = CatAll(<<text, GapText(F, g), C1(F.ss), GapText(F, g2), name, post>>)
            /\ stack' = st2 /\ Case(Cat(text', Closers(st2)), st2)
   /\ nn' = nn + 1
@@ -271,6 +276,20 @@ Trailer(g, g2) ==
   /\ Case(CatAll(<<text, GapText(F, g), Closers(stack), GapText(F, g2)>>), stack)
   /\ UNCHANGED <<cfg, text, stack, nn>>
 
+(* an unmatched section end: in the prefix style the end character at an item position is the  *)
+(* section end token; behind a balanced document it closes nothing, so the text denotes no      *)
+(* forest and the parse has to fail (target as it was).  At the start (empty document), behind  *)
+(* a balanced prefix, and followed by further items.                                           *)
+StrayEnd(g, withtail) ==
+  /\ Style = "pre" /\ F.se # 0 /\ F.as # 0 /\ GapOK(F, g)
+  /\ LET tail == IF withtail
+                 THEN CatAll(<<C1(10), B(<<97>>), C1(F.as), B(<<120>>), IF F.oe # 0 THEN C1(F.oe) ELSE C1(10)>>)
+                 ELSE <<>>
+         doc == CatAll(<<text, Closers(stack), GapText(F, g), C1(F.se), tail>>)
+     IN obs' = [a |-> "parse", arg |-> [fmt |-> B(cfg.fmt), acc |-> B(cfg.acc), text |-> doc],
+                exp |-> [ret |-> "error", tree |-> <<>>, links |-> 0, ev |-> <<>>]]
+  /\ UNCHANGED <<cfg, text, stack, nn>>
+
 Quotes == {0} \cup F.esc
 Init ==
   /\ \E c \in Configs : cfg = [fmt |-> c.fmt, acc |-> c.acc, F |-> FormatOf(c.fmt), A |-> AcceptOf(c.acc)]
@@ -283,6 +302,7 @@ Next ==
   \/ \E name \in SecNames, d \in Decos : OpenSection(name, d.g, d.b1, d.b2, d.g2)
   \/ \E d \in Decos : CloseSection(d.g)
   \/ \E d \in Decos : Trailer(d.g, d.g2)
+  \/ \E d \in Decos, w \in BOOLEAN : StrayEnd(d.g, w)
 
 Spec == Init /\ [][Next]_vars
 
@@ -335,5 +355,5 @@ ScanAgrees(FF, v, q, b2, b3, ending) ==
 ---------------------------------------------------------------------------
 TypeOK ==
   /\ [fmt |-> cfg.fmt, acc |-> cfg.acc] \in Configs /\ nn \in 0..MaxNodes /\ Len(stack) >= 1
-  /\ obs.exp.ret = "ok"
+  /\ obs.exp.ret \in {"ok", "error"}
 =============================================================================
